@@ -29,6 +29,29 @@ class Sc(scen.Scenario):
     def epilogue_times(self):
         return [300, 2500]
 
+    def pick_input(self, impl):
+        """directed: while a delayed answer to a FindService is pending, a stop of some kind is a likely next input - in
+        every phase of the offer task, also after a non-cyclic task has run to its end (found thin by the mutation
+        sweep: the `_task is None` guard of `_send_offer` dropped)"""
+        pend = [h for h in impl.loop._scheduled if not h._cancelled and impl.name(h) == "_send_offer"]
+        if pend and self.rng.random() < 0.4:
+            r = self.rng.random()
+            t = impl.loop.ticks
+            if r < 0.4 and self.running:
+                self.running = False
+                self.rec.inp(t, ("stop",))
+                return "in stop"
+            if r < 0.8 and self.announced:
+                i = self.rng.choice(sorted(self.announced))
+                self.announced.discard(i)
+                self.rec.inp(t, ("stopAnnounce", i))
+                return f"in stopAnnounce {i} 1"
+            if self.running:
+                self.running = False
+                self.rec.inp(t, ("annStop",))
+                return "in annStop"
+        return super().pick_input(impl)
+
 
 def make(rng, k):
     init = rng.choice([(0, 0), (0, 30), (20, 20), (5, 50)])
